@@ -116,6 +116,33 @@ def run_e2e(args):
     return out
 
 
+def many_shards(args):
+    """(child) one split of ~100 one-example shards read unshuffled with a read parallelism above 64 and not a round number."""
+    sp.sedpack(rust=True)
+    from sedpack.io import Dataset
+    out = []
+    for a in args:
+        root = a["root"]
+        ds = sp.mk(root, fmt="fb", comp=a["comp"], eps=1)
+        n = a["n"]
+        with ds.filler() as f:
+            for v in range(n):
+                f.write_example(values=sp.val(v), split="train")
+        ds = Dataset(root)
+        rec = {"case": {k: a[k] for k in a if k != "root"}, "runs": []}
+        for iface in ("rust", "concurrent", "async"):
+            if not I.supports(iface, "fb", a["comp"]): continue
+            for T in a["Ts"]:
+                try:
+                    got, _ = I.run_iface(ds, iface, "train", shuffle=0, T=T)
+                except BaseException as e:  # noqa: BLE001
+                    got = f"{type(e).__name__}: {str(e)[:150]}"
+                rec["runs"].append({"iface": iface, "T": T, "got": got})
+        out.append(rec)
+        shutil.rmtree(root, ignore_errors=True)
+    return out
+
+
 def gen(ctx):
     rng = ctx.rng("c03")
     cases = []
@@ -161,6 +188,15 @@ def run(ctx):
         recs += child.call("harness.checks.c03", "run_e2e", cases[i:i + 6], timeout=1500)
     nruns, distinct = 0, set()
     breqs, bobs = [], []
+    for r in child.call("harness.checks.c03", "many_shards", [{"root": str(ctx.scratch / "c03_many"), "comp": ["", "LZ4", "GZIP"][ctx.seed % 3], "n": 110,
+                                                                "Ts": [65, 72, 99] if not ctx.thorough else [63, 64, 65, 72, 99, 100, 128, 130]}], timeout=900):
+        for run_ in r["runs"]:
+            nruns += 1
+            if run_["got"] != list(range(r["case"]["n"])):
+                ctx.report({"kind": "sequence", "iface": run_["iface"], "many_threads": True},
+                           f"fb {run_['iface']} with file_parallelism={run_['T']} over {r['case']['n']} one-example shards: {str(run_['got'])[:160]} is not the write order",
+                           {"case": r["case"], "run": {"iface": run_["iface"], "T": run_["T"], "got": run_["got"] if isinstance(run_["got"], str) else run_["got"][:140]}})
+            distinct.add(("fb", "many", run_["iface"], 4, "same"))
     for r in recs:
         if r.get("enum_error"):
             ctx.report({"kind": "listing-error"}, f"enumerating the shards of a valid dataset failed: {r['enum_error']}", {"case": r["case"]})
